@@ -700,7 +700,7 @@ func runC10_18(c *core.Ctx) {
 			good := m == name && len(call.Args) == sig.Params().Len()
 			if good {
 				for i, a := range call.Args {
-					if flow.ObjOf(f.Info, a) != types.Object(f.param(i)) {
+					if pv := f.param(i); pv == nil || flow.ObjOf(f.Info, seeThrough(f, a)) != types.Object(pv) || assignCount(f, pv) != 1 {
 						good = false
 					}
 				}
